@@ -355,7 +355,7 @@ impl RoutingThread {
             txs: vec![],
             gts: vec![],
         };
-        for i in (last_shared_ancestor + 1)..=latest_block_id {
+        for i in last_shared_ancestor.saturating_add(1)..=latest_block_id {
             if let Some(hash) = blockchain
                 .blockring
                 .get_longest_chain_block_hash_at_block_id(i)
